@@ -368,6 +368,7 @@ class GridSearcher(StochasticSearcher):
             num_samples=self.num_samples,
             metric=self._metric,
             shuffle_config=self._shuffle_config,
+            allow_duplicates=self._allow_duplicates,
         )
         new_searcher._restore_from_state(state)
         return new_searcher
